@@ -28,7 +28,7 @@ def since_operation(sample_left, sample_right):
         o1_val = sample[1][0]
         o2_val = sample[1][1]
         result = max(min(o1_val, o2_val), min(o1_val, prev))
-        if result != prev or i == len(iout) - 1:
+        if i == 0 or result != prev or i == len(iout) - 1:
             sample_return.append([t, result])
         prev = result
     return sample_return
